@@ -15,7 +15,8 @@ from ..runner import Skip
 
 RULE = ("cases from rng(seed, 12, 0, i): graphs of all pose types (trajectory and cluster graphs incl. custom edges), converging, diverging (far starts), singular (an unconstrained vertex: chi2 becomes NaN) and stationary "
         "(all vertices fixed / exactly consistent measurements / linear graph at its optimum); tol in {0, 1e-12..1e-1}, max_iter 1..30 (quick: ..12), verbose in {True, False}; "
-        "one call vs single-iteration driving; random (all for n<=5) compositions k1+..+km=n. distinct = fingerprint(spec, tol, max_iter); non-trivial = run with >= 2 iterations.")
+        "one call vs single-iteration driving; random (all for n<=5) compositions k1+..+km=n. distinct = fingerprint(spec, tol, max_iter); non-trivial = run with >= 2 iterations."
+        " later additions: the rule replayed exactly on the run's own reported sequence; negative chi2 (indefinite information); durations; third printed column; between-call edits that touch only edge-side data, release a fixed vertex.")
 REQ = ["eval:stopping-rule", "eval:report-chi2-sequence", "eval:final-state-is-trajectory-state", "eval:final-chi2-is-calc_chi2", "eval:verbose-does-not-alter", "eval:split-run-reproduces",
        "eval:printed-table-matches-report", "eval:str(result)-matches-report", "class:early_stop", "class:max_iter_stop", "class:stationary", "class:diverging", "class:tol=0", "class:converged_at_max_iter", "class:singular", "class:nan_chi2_in_trace", "class:edge_overriding_calc_chi2", "eval:next-call-after-external-edit-equals-fresh-graph", "class:indefinite_information(negative chi2 possible)", "class:fixed_vertex_released_between_calls", "class:landmark_offset_written_in_place_between_calls"]
 PLAN = {
